@@ -177,6 +177,11 @@ func (s *ECDHSession) Parameter(rand io.Reader, _ *rsa.PublicKey) ([]byte, error
 // SetParameter sets the received parameter from the client. This method is
 // only called by a server.
 func (s *ECDHSession) SetParameter(xB []byte, _ *rsa.PrivateKey) error {
+	// The private key is cleared once the session key has been computed, so a
+	// second parameter (e.g. a replayed message) must not get this far
+	if s.priv == nil {
+		return fmt.Errorf("key exchange has no private key: parameter was not generated or the exchange already completed")
+	}
 	s.xB = xB
 
 	// Compute session key
